@@ -1,5 +1,5 @@
 /* Declaration-only stand-in for idnkit-2's <idn/api.h>, transcribed from its public
- * documentation, so that partial/idnkit/*.c can be PARSED (never compiled or linked) here.
+ * documentation, so that the files under partial/idnkit can be PARSED (never compiled or linked) here.
  * idnkit is not installed in this sandbox. */
 #ifndef VERIF_STUB_IDN_API_H
 #define VERIF_STUB_IDN_API_H
